@@ -119,10 +119,16 @@ def regenerate(prop, ext):
     os.makedirs(gdir, exist_ok=True)
     # modules of OTHER properties that this one imports: only make sure they exist (a fresh tree); they are
     # regenerated and judged by their own property's check
-    for name in gen_deps(prop):
-        dst = os.path.join(gdir, name + ".lean")
-        if not os.path.exists(dst):
-            run([ext, name, "-repo", REPO, "-out", dst], cwd=HARN, env=GOENV)
+    def ensure_deps():
+        missing = []
+        for name in gen_deps(prop):
+            dst = os.path.join(gdir, name + ".lean")
+            if not os.path.exists(dst):
+                rc_, o_, _ = run([ext, name, "-repo", REPO, "-out", dst], cwd=HARN, env=GOENV)
+                if not os.path.exists(dst):
+                    missing.append(name)
+        return missing
+    ensure_deps()
     for name in prop.get("gen", []):
         tmp = os.path.join(ROOT, ".work", "gen_" + name + ".lean")
         if os.path.exists(tmp):
@@ -143,6 +149,10 @@ def regenerate(prop, ext):
             with open(dst, "w") as f:
                 f.write(new)
         mods.append("TongoGen." + name)
+    # some translators read other regenerated modules (AbiOpcodes reads TlbTypes): second pass for what is still missing
+    for _ in range(2):
+        if not ensure_deps():
+            break
     return mods, None
 
 
